@@ -70,7 +70,7 @@ pub fn policy(_tier: Tier, w: &Arc<World>) -> Scn {
     let mut reqs: Vec<ReqInfo> = vec![];
     let mut desc = format!("policy {} distinct_dirs={distinct} requests=[", srv.describe());
     // names that make the refusal text long, with a multi-byte character at every alignment
-    let long_names: Vec<String> = (0..4).map(|k| format!("{}{}", "a".repeat(k), "\u{e9}".repeat(228))).collect();
+    let long_names: Vec<String> = (0..4).map(|k| format!("{}{}", "a".repeat(k), "\u{e9}".repeat(238))).collect();
     for i in 0..n {
         let mut write = d.chance("swarm.req.write", 1, 2);
         let mut name: &str = d.pick("swarm.req.name", &names);
